@@ -707,14 +707,14 @@ func (x *Exec) Run() {
 		}
 		x.inEntry = false
 		for _, r := range x.c.Requires {
-			t := env.evalBool(r.Expr)
+			t := env.evalAssumed(r.Expr)
 			s.assume(t)
 		}
 	}
 	if len(x.fn.Params) > 0 {
 		for _, ti := range x.P.typeInvariants(x.fn) {
 			env.vars["self"] = x.params[x.fn.Params[0].Name()]
-			s.assume(env.evalBool(ti.Expr))
+			s.assume(env.evalAssumed(ti.Expr))
 			delete(env.vars, "self")
 		}
 	}
@@ -914,7 +914,7 @@ func (x *Exec) assumeInvOfWritten(s *State, rec writeRec) {
 			env.vars = map[string]Val{"self": sv}
 			env.pkgPath = t.(*types.Named).Obj().Pkg().Path()
 			for _, inv := range invs {
-				s.assume(env.evalBool(inv.Expr))
+				s.assume(env.evalAssumed(inv.Expr))
 			}
 		}
 		for _, ci := range x.P.chanInvsOfType(t) {
